@@ -35,7 +35,7 @@ use std::{
   time::{Duration, Instant},
 };
 
-use fibre::{mpsc, RecvErrorTimeout};
+use fibre::{mpsc, RecvErrorTimeout, TryRecvError};
 use log::LevelFilter as LogLevelFilter;
 use tracing_core::metadata::LevelFilter;
 use tracing_subscriber::prelude::*;
@@ -52,6 +52,10 @@ const MAX_FLUSH_INTERVAL: Duration = Duration::from_millis(250);
 /// Bound on how many queued messages are drained per wakeup, so a firehose
 /// producer can't starve the periodic flush.
 const WRITER_DRAIN_BATCH_MAX: usize = 256;
+/// Upper bound on how long a writer's final drain keeps retrying an `Empty`
+/// channel while waiting for `Disconnected` (senders closed, in-flight sends
+/// landed). Bounds the exit of a writer whose senders are never closed.
+const FINAL_DRAIN_GRACE: Duration = Duration::from_millis(200);
 
 /// Finds the configuration file based on common patterns and an optional environment suffix.
 pub fn find_config_file(environment_suffix: Option<&str>) -> Result<PathBuf> {
@@ -469,8 +473,32 @@ fn run_byte_appender_writer(
 
   // --- Final Flush on Shutdown ---
   // Drain any messages that arrived just before shutdown, then flush.
-  while let Ok(bytes) = rx.try_recv() {
-    write_one(&mut *writer, &bytes, &mut is_dirty, appender_name, error_tx);
+  // `try_recv` answers `Empty` while another thread's send is still in flight
+  // (slot claimed, value not yet published), with completed sends possibly
+  // queued behind that hole, so `Empty` does not mean "drained". Only
+  // `Disconnected` does: shutdown closes the senders right after setting the
+  // flag, and the channel reports it once every in-flight send has landed and
+  // been received. The grace deadline covers senders that are never closed.
+  let drain_deadline = Instant::now() + FINAL_DRAIN_GRACE;
+  let mut empty_polls = 0u32;
+  loop {
+    match rx.try_recv() {
+      Ok(bytes) => write_one(&mut *writer, &bytes, &mut is_dirty, appender_name, error_tx),
+      Err(TryRecvError::Disconnected) => break,
+      Err(TryRecvError::Empty) => {
+        if Instant::now() >= drain_deadline {
+          break;
+        }
+        // An in-flight send lands within a few instructions: yield first,
+        // back off to a short sleep only if the channel stays empty.
+        empty_polls += 1;
+        if empty_polls < 64 {
+          std::thread::yield_now();
+        } else {
+          std::thread::sleep(Duration::from_millis(1));
+        }
+      }
+    }
   }
   if is_dirty {
     flush(
